@@ -15,15 +15,14 @@ sys.path.insert(0, os.path.join(os.path.dirname(os.path.abspath(__file__)), ".."
 import vlib
 
 ENV = {"ASAN_OPTIONS": "detect_leaks=0:abort_on_error=0", "UBSAN_OPTIONS": "print_stacktrace=1"}
-MSEL = [0, 1, 3, 4, 5, 6, 15, 16, 17, 19, 20, 21, 22]
-FLAGS = ["derefclear", "rendup"]   # repairs proposed (C15-11, C15-12) but not necessarily in the tree
+MSEL = list(range(23))
+FLAGS = ["delalias"]   # repair proposed (C15-13) but not necessarily in the tree
 
 # ---------------------------------------------------------------- witnesses
 # one per repair flag; the implementation's output on the witness must equal
 # the model's with the flag off (defect present) or on (repaired)
 WITNESS = {
-    "derefclear": ["A 0 - x 15 0 0 - - 1", "L - al x 0", "D x 12"],
-    "rendup": ["A 0 - a 15 0 0 - - 1", "L - q nothere 0", "R a q 0"],
+    "delalias": ["A 0 - x 15 0 0 - - 1", "L - b x 0", "L - a b 0", "D b 8"],
 }
 # regression witnesses for the defects repaired in /repo (fix: commits d815d97 .. 71a6c5d, fb2ee00):
 # run like every other sequence; they must now agree with the model and satisfy the property text
@@ -38,6 +37,10 @@ FIXED_WITNESS = {
     "parent": ["A 0 - p 15 0 0 - - 1", "A 0 p c 15 0 0 - - 2", "D p/c 0"],
     "malias": ["A 0 - p 15 0 0 - - 1", "A 0 - x 15 0 0 - - 2", "L p al x 0", "Q p 22 0", "D p 0"],
     "alias-loop": ["L - b c 0", "L - c b 0", "L - a b 0", "R a zz 0"],
+    "alias-stale": ["A 0 - x 15 0 0 - - 1", "L - al x 0", "D x 8", "A 0 - x 15 0 0 - - 1"],
+    "alias-chain-order": ["L - b x 0", "L - a b 0", "A 0 - x 15 0 0 - - 1"],
+    "deref-force-alias": ["A 0 - x 15 0 0 - - 1", "L - al x 0", "A 0 - z 3 0 0 x x,- 0", "D x 12", "Q - 21 0"],
+    "rename-onto-dangling-alias": ["A 0 - a 15 0 0 - - 1", "L - q nothere 0", "R a q 0", "L - r a 0", "R a r 0"],
     "unhide": ["A 0 - a 15 0 1 - - 1", "A 0 - b 15 0 0 - - 2", "Q - 22 0", "H a 0", "Q - 22 0"],
     "hide-meta": ["A 0 - p 15 0 0 - - 1", "A 1 p a 15 0 0 - - 2", "A 0 p b 15 0 0 - - 3", "Q p 22 0", "H p/a 1", "Q p 22 0", "H p/a 0", "Q p 22 0"],
     "delete-meta-cache": ["A 0 - p 15 0 0 - - 1", "A 1 p a 15 0 0 - - 2", "A 0 p b 15 0 0 - - 3", "Q p 22 0", "D p/a 0", "Q p 22 0"],
@@ -47,13 +50,10 @@ FIXED_WITNESS = {
 # open defects: the model reproduces them faithfully (model == implementation) and the
 # specification check flags them
 EXTRA_WITNESS = {
-    "alias-stale": ["A 0 - x 15 0 0 - - 1", "L - al x 0", "D x 8", "A 0 - x 15 0 0 - - 1"],
-    "alias-chain-order": ["L - b x 0", "L - a b 0", "A 0 - x 15 0 0 - - 1"],
     "alias-intermediate": ["A 0 - x 15 0 0 - - 1", "L - b x 0", "L - a b 0", "D b 8"],
+    "alias-intermediate-readd": ["A 0 - x 15 0 0 - - 1", "L - b x 0", "L - a b 0", "D b 8", "A 0 - b 17 0 0 - - 0"],
     "alias-cache": ["A 0 - p 15 0 0 - - 1", "L - al p/m 0", "Q - 22 0", "A 1 p m 15 0 0 - - 2", "Q - 22 0"],
     "alias-cache-del": ["A 0 - p 15 0 0 - - 1", "A 1 p m 15 0 0 - - 2", "L - al p/m 0", "Q - 22 0", "D p/m 8", "Q - 22 0"],
-    "deref-force-alias": ["A 0 - x 15 0 0 - - 1", "L - al x 0", "D x 12"],
-    "rename-onto-dangling-alias": ["A 0 - a 15 0 0 - - 1", "L - q nothere 0", "R a q 0"],
     "affix-alias": ["A 0 - x 15 1 0 - - 1", "L - al x 0", "X 1 p ~"],
     "affix-reference": ["A 0 - r 0 1 0 - - 0", "X 1 p ~"],
 }
@@ -77,7 +77,7 @@ def parse_steps(out):
         elif cur is not None:
             if ln.startswith("i "):
                 cur[2] = dict(kv.split("=") for kv in ln[2:].split())
-            elif ln.split(" ", 1)[0] in ("ref", "e", "sorted", "n", "k"):
+            elif ln.split(" ", 1)[0] in ("ref", "e", "sorted", "n", "k", "vs", "vc", "va", "x"):
                 cur[1].append(ln)
     return steps
 
@@ -103,6 +103,10 @@ def parse_dump(lines):
             d["n"][t[1]] = t[2:]
         elif t[0] == "k":
             d["k"][t[1]] = t[2:]
+        elif t[0] in ("vs", "vc", "va"):
+            d.setdefault("v", []).append(t)
+        elif t[0] == "x":
+            d.setdefault("x", []).append(t)
     return d
 
 
@@ -182,13 +186,83 @@ def spec_check(op, res, dump_lines):
             cnt = int(row[MSEL.index(int(t[2])) * 4 + int(t[3])])
             if cnt != len(names):
                 bad.append(("list", "gd_entry_list has %d names, gd_nentries says %d" % (len(names), cnt)))
-    # value lists line up
+    # value lists line up with the name lists
+    for t in d.get("v", []):
+        if any(w.startswith("!count=") or w.startswith("NULL") for w in t[2:]):
+            bad.append(("values", "%s of %s: %s" % ({"vs": "gd_strings", "vc": "gd_carrays", "va": "gd_sarrays"}[t[0]], t[1], " ".join(t[2:]))))
+    # gd_match_entries per fragment: with HIDDEN|NOALIAS and no type filter it is exactly the
+    # non-alias entries of that fragment
+    for t in d.get("x", []):
+        if any(w.startswith("!count=") or w.startswith("NULL") for w in t[5:]):
+            bad.append(("match", "gd_match_entries: " + " ".join(t)))
+        elif t[2] == "22" and t[3] == "3":
+            want = [e["name"] for e in d["ents"] if e["ty"] != "21" and (t[1] == "2" or e["fr"] == t[1])]
+            if t[5:] != want:
+                bad.append(("match", "gd_match_entries(fragment %s) lists %s, the table has %s" % (
+                    t[1] if t[1] != "2" else "ALL", " ".join(t[5:]), " ".join(want))))
     for par, vals in d["k"].items():
         row = d["n"].get(par)
         if row is not None and (vals and vals[0].startswith("NULL")):
             bad.append(("values", "gd_constants failed"))
         elif row is not None and len(vals) != int(row[MSEL.index(15) * 4]):
             bad.append(("values", "gd_constants has %d values for %s names" % (len(vals), row[MSEL.index(15) * 4])))
+    return bad
+
+
+def use_check(op, res, prev_lines, dump_lines):
+    """"Deleting or renaming a field updates or refuses every use of it (inputs, scalar
+    parameters, aliases) according to the flags given": judged on two consecutive table dumps."""
+    bad = []
+    t = op.split()
+    if res != "> r 0" or prev_lines is None or t[0] not in ("D", "R"):
+        return bad
+    prev = parse_dump(prev_lines); cur = parse_dump(dump_lines)
+    pby = {e["name"]: e for e in prev["ents"]}
+    cnames = set(e["name"] for e in cur["ents"])
+
+    def chase(c, n=0):
+        x = pby.get(c)
+        if x is None or n > len(pby):
+            return None
+        if x["ty"] == "21":
+            return x["dist"] if x["dist"] not in ("-", "!") else None
+        return c
+    if t[0] == "D" and not (int(t[2]) & 8):
+        deleted = set(pby) - cnames
+        if not deleted:
+            return bad
+        deref = int(t[2]) & 4
+        for e in cur["ents"]:
+            pe = pby.get(e["name"], e)
+            if e["ty"] == "21":
+                if pe.get("dist") in deleted:
+                    bad.append(("use", "gd_delete without GD_DEL_FORCE removed %s although alias %s resolved to it" % (pe["dist"], e["name"])))
+                continue
+            if pe.get("ins", "-") != "-":
+                for ic in pe["ins"].split(","):
+                    code, _, cache = ic.rpartition(":")
+                    tgt = cache if cache not in ("-", "!") else chase(code)
+                    if tgt in deleted:
+                        bad.append(("use", "gd_delete without GD_DEL_FORCE removed %s although %s uses it as input %s" % (tgt, e["name"], code)))
+            if pe.get("scs", "-") != "-" and not deref:
+                for c in pe["scs"].split(","):
+                    if c in deleted and pby[c]["ty"] in ("15", "16"):
+                        bad.append(("use", "gd_delete without GD_DEL_DEREF/FORCE removed %s although %s uses it as a scalar parameter" % (c, e["name"])))
+    if t[0] == "R" and (int(t[3]) & 2) and "/" not in t[1] and t[1] not in cnames and t[1] in pby and pby[t[1]]["ty"] != "21":
+        old = t[1]
+        for e in cur["ents"]:
+            codes = []
+            if e["ty"] == "21":
+                if not (int(t[3]) & 4):
+                    codes = [e["tgt"]]
+            else:
+                if e.get("ins", "-") != "-":
+                    codes += [ic.rpartition(":")[0] for ic in e["ins"].split(",")]
+                if e.get("scs", "-") != "-":
+                    codes += [c for c in e["scs"].split(",") if c != "-"]
+            for c in codes:
+                if c == old or c.startswith(old + "/"):
+                    bad.append(("use", "gd_rename(%s -> %s, GD_REN_UPDB) left the code %s in %s" % (old, t[2], c, e["name"])))
     return bad
 
 
@@ -208,7 +282,7 @@ def op_label(op):
 TOP = ["a", "b", "aa", "ab", "ba", "aaa", "aab", "abcdefg1", "abcdefg2", "abcdefh1", "p", "q", "pp", "r1", "r2",
        "zz", "INDEX", "a_", "p0"]
 SUB = ["x", "y", "xx", "a", "aa", "z9"]
-TYPES = [0, 1, 3, 4, 5, 15, 15, 15, 16, 17]
+TYPES = [0, 1, 2, 3, 4, 5, 7, 8, 9, 10, 11, 12, 13, 14, 15, 15, 15, 16, 16, 17, 17, 18]
 
 
 def gen_sequence(rng, n, alias_loops):
@@ -218,6 +292,14 @@ def gen_sequence(rng, n, alias_loops):
     aliases = {}
 
     everalias = set()
+    used = []      # codes that appear as inputs, scalar parameters or alias targets
+
+    def victim():
+        # deleting / renaming something that is in use is where refusal and update logic lives
+        if used and rng.random() < 0.4:
+            c = rng.choice(used)
+            return c
+        return code()
 
     def code():
         r = rng.random()
@@ -279,9 +361,9 @@ def gen_sequence(rng, n, alias_loops):
                 spec = 1; ty = 15
             frag = rng.choice([0, 0, 1, 1, 2]) if rng.random() < 0.1 else rng.choice([0, 1])
             hid = 1 if rng.random() < 0.15 and not spec else 0
-            nin = {1: rng.choice([1, 2, 3]), 3: 1, 4: 2, 5: 1}.get(ty, 0)
+            nin = {1: rng.choice([1, 2, 3]), 2: 1, 3: 1, 4: 2, 5: 1, 7: 1, 8: 1, 9: 2, 10: 1, 11: 2, 12: 2, 13: 2, 14: 2}.get(ty, 0)
             ins = [code() for _ in range(nin)]
-            nsc = {0: 1, 1: 6, 3: 2, 5: 1}.get(ty, 0)
+            nsc = {0: 1, 1: 6, 3: 2, 5: 1, 7: 3, 8: 2, 10: 1, 11: 1, 12: 2}.get(ty, 0)
             scs = []
             for i in range(nsc):
                 okpos = True
@@ -290,12 +372,21 @@ def gen_sequence(rng, n, alias_loops):
                 scs.append(code() if okpos and rng.random() < 0.3 else "-")
             if spec:
                 ins = []; scs = []; hid = 0
+            used.extend(ins + [c for c in scs if c != "-"])
             ops.append("A %d %s %s %d %d %d %s %s %d" % (spec, parent, nm, ty, frag, hid,
                                                         ",".join(ins) if ins else "-", ",".join(scs) if scs else "-",
                                                         rng.randint(1, 99)))
             full = nm if parent == "-" else parent + "/" + nm
             if full not in live:
                 live.append(full)
+            uses = ins + [c for c in scs if c != "-"]
+            if uses and rng.random() < 0.3:
+                # try to take one of the fields this entry uses away from under it
+                u = rng.choice(uses)
+                if rng.random() < 0.6:
+                    ops.append("D %s %d" % (u, rng.choice([0, 1, 4, 5])))
+                else:
+                    ops.append("R %s %s %d" % (u, rng.choice(TOP + SUB), rng.choice([2, 2, 0, 6])))
         elif r < 0.40:
             parent = "-"; nm = rng.choice(TOP); tgt = code()
             tops = [x for x in live if "/" not in x and x != "INDEX"]
@@ -305,18 +396,19 @@ def gen_sequence(rng, n, alias_loops):
             if not alias_loops and would_loop(full, tgt):
                 continue
             everalias.add(full)
+            used.append(tgt)
             if full not in live:
                 aliases[full] = tgt
                 live.append(full)
             ops.append("L %s %s %s %d" % (parent, nm, tgt, rng.choice([0, 1])))
         elif r < 0.52:
-            nm = code()
+            nm = victim()
             if nm == "INDEX":
                 continue
             fl = rng.choice([0, 0, 1, 1, 8, 9, 4, 5, 2, 3, 13])
             ops.append("D %s %d" % (nm, fl))
         elif r < 0.64:
-            nm = code()
+            nm = victim()
             new = rng.choice(TOP + SUB)
             if rng.random() < 0.05:
                 new = rng.choice(["a/b", "~", "x<y"])
@@ -335,7 +427,7 @@ def gen_sequence(rng, n, alias_loops):
             par = "-"
             if rng.random() < 0.4:
                 par = code()
-            sel = rng.choice([22, 22, 22, 15, 19, 20, 21, 0, 1, 17])
+            sel = rng.choice([22, 22, 22, 15, 19, 20, 21, 0, 1, 17, 16, 18, 14, 13, 12, 9])
             ops.append("Q %s %d %d" % (par, sel, rng.choice([0, 0, 0, 1, 2, 3])))
         if bracket_from >= 0:
             bracket(bracket_from)
@@ -466,6 +558,8 @@ def main():
     for ops, msteps, cut, why, irc, isteps, iout, crash in results:
         first_bad = {}
         corrupt = False
+        desync = False
+        prev_dl = None
         flip = {}
         prev = None
         for i in range(cut):
@@ -474,7 +568,7 @@ def main():
                 break
             ms = msteps[i]
             # which op made the model's invariant components fail first
-            if ms[2]:
+            if ms[2] and not desync:
                 for b, v in ms[2].items():
                     if v == "0" and (prev is None or prev.get(b) == "1") and b not in flip:
                         flip[b] = i
@@ -484,7 +578,12 @@ def main():
                 pass
             nontriv.add((ops[i].split()[0], res.split()[1] if len(res.split()) > 1 else "", res.split()[2] if res.startswith("> r") and len(res.split()) > 2 else "ok", len(dl)))
             kinds[ops[i][0]] = kinds.get(ops[i][0], 0) + 1
-            sb = spec_check(ops[i], res, dl)
+            sb = spec_check(ops[i], res, dl) + use_check(ops[i], res, prev_dl, dl)
+            prev_dl = dl
+            if desync:
+                # without the model in step the culprit of a stale list / alias cannot be named; those
+                # kinds have listed open defects, so leave them to the sequences that stay in step
+                sb = [(k, m_) for k, m_ in sb if k not in ("list", "alias")]
             if corrupt:
                 sb = []
             if any(k in ("unique", "sorted") for k, _ in sb):
@@ -506,9 +605,11 @@ def main():
                                  {"kind": "impl-vs-spec", "ops": ops[:i + 1], "culprit_step": ci, "observed_step": i,
                                   "impl_result": res, "impl_dump": dl, "message": msg,
                                   "how": "feed ops to harness/C15/nametab <scratchdir> (ASan build)"})
-            if (ms[0], ms[1]) != (res, dl):
+            if not desync and (ms[0], ms[1]) != (res, dl):
+                # the model no longer describes the code: keep judging the rest of the implementation's
+                # run against the property text (a consequence may only show some steps later)
                 modelbad.append((ops[:i + 1], i, (ms[0], ms[1]), (res, dl), bool(spec_check(ops[i], res, dl))))
-                break
+                desync = True
         else:
             if irc != 0 or len(isteps) < cut:
                 modelbad.append((ops[:cut], len(isteps), ("(model continues)", []), ("harness died rc=%d: %s" % (irc, iout[-800:]), []), True))
